@@ -1,4 +1,315 @@
+/* eng_coro.c - C03: context switches on the real cmi_coroutine API against a model of
+ * status / current / caller / parent; register, MXCSR and stack sentinels around every switch.
+ *
+ * Plan lines (each executed by whichever coroutine is current when the step counter reaches it):
+ *   INIT n szcode            n coroutines (2..8), stack size selector
+ *   START c | RESUME c | TRANSFER c | YIELD | RETURN | EXIT | STOP c | RECURSE d | POP | SETCSR m
+ * Steps that are invalid in the current model state are skipped, so every shrunk plan stays valid.
+ */
 #include "core.h"
-static void g(plan *p, uint64_t seed, const char *cfg) { (void)p; (void)seed; (void)cfg; }
-static void r(const plan *p) { (void)p; }
-const engine eng_coro = { .name = "coro", .props = "", .gen = g, .run = r, .rule = "stub" };
+#include <stdlib.h>
+#include <string.h>
+#include <xmmintrin.h>
+#include "cmi_coroutine.h"
+#include "cmb_logger.h"
+
+#if defined(__has_feature)
+#  if __has_feature(address_sanitizer)
+#    define VERIF_ASAN 1
+#  endif
+#endif
+#ifdef __SANITIZE_ADDRESS__
+#  define VERIF_ASAN 1
+#endif
+#ifdef VERIF_ASAN
+void __asan_unpoison_memory_region(void const volatile *addr, size_t size);
+#endif
+
+extern uint64_t shim_bad, entry_rsp, exit_rsp;
+extern void *switch_shim(void *(*fn)(void *, void *), void *a1, void *a2, uint64_t pat);
+extern void *coro_entry_stub(struct cmi_coroutine *cp, void *ctx);
+extern void coro_exit_stub(void *retval);
+
+#define MAXC 8
+#define MAXDEPTH 24
+enum { ST_CREATED = 0, ST_RUNNING = 1, ST_FINISHED = 2 };
+
+typedef struct {
+    struct cmi_coroutine *cp;
+    int status, caller, parent;       /* model; index, -1 none */
+    void *exitv;
+    uint32_t csr;
+    int depth;
+    bool returning; void *retv;
+    size_t stacksz;
+    bool used;
+} mco;
+
+static mco co[MAXC + 1];
+static int nco, MAINI;
+static const plan *P;
+static int pc;
+static int cur;                       /* model: index of the current coroutine */
+static int expect_target; static void *expect_msg; static bool expect_entry;
+static bool stop_all;
+static uint64_t nswitch;
+
+static const char *regname(uint64_t k)
+{
+    static const char *n[] = { "?", "rbx", "rbp", "r12", "r13", "r14", "r15", "stack-slot" };
+    return n[k < 8 ? k : 0];
+}
+static struct cmi_coroutine *cpof(int i) { return i == MAINI ? cmi_coroutine_main() : co[i].cp; }
+
+static void *w_start(void *cp, void *msg) { return cmi_coroutine_start(cp, msg); }
+static void *w_resume(void *cp, void *msg) { return cmi_coroutine_resume(cp, msg); }
+static void *w_transfer(void *cp, void *msg) { return cmi_coroutine_transfer(cp, msg); }
+static void *w_yield(void *msg, void *unused) { (void)unused; return cmi_coroutine_yield(msg); }
+
+static void check_model(const char *where)
+{
+    for (int i = 0; i < nco; i++) {
+        if ((int)cmi_coroutine_status(co[i].cp) != co[i].status)
+            viol("C03", "status", "%s: coroutine %d status %d, model %d", where, i, (int)cmi_coroutine_status(co[i].cp), co[i].status);
+        if (co[i].status == ST_FINISHED && cmi_coroutine_exit_value(co[i].cp) != co[i].exitv)
+            viol("C03", "exit-value", "%s: coroutine %d exit value %p, expected %p", where, i, cmi_coroutine_exit_value(co[i].cp), co[i].exitv);
+    }
+}
+
+/* called in coroutine `me` right after a switching call returned `got` */
+static void after_switch_in(int me, void *got, uint64_t pat)
+{
+    nswitch++;
+    if (shim_bad) {
+        viol("C03", "callee-saved-register", "coroutine %d: %s not preserved across a context switch (pattern %#" PRIx64 ")", me, regname(shim_bad), pat);
+        shim_bad = 0;
+    }
+    if (cmi_coroutine_current() != cpof(me))
+        viol("C03", "current", "coroutine %d resumed but cmi_coroutine_current() names another", me);
+    if (expect_target != me) {
+        viol("C03", "wrong-target", "control arrived in coroutine %d, model predicted %d", me, expect_target);
+        stop_all = true;
+    } else if (expect_entry) {
+        viol("C03", "wrong-target", "coroutine %d continued in mid-function, model predicted a fresh start", me);
+    } else if (got != expect_msg) {
+        viol("C03", "message", "coroutine %d received %p, expected %p", me, got, expect_msg);
+    }
+    const uint32_t csr = _mm_getcsr() & ~0x3fu;
+    if (csr != co[me].csr)
+        viol("C03", "mxcsr", "coroutine %d: MXCSR %#x after switch-in, it left with %#x", me, csr, co[me].csr);
+    cur = me;
+    check_model("switch-in");
+    TR3("in", me, (int64_t)(uintptr_t)got, pc);
+}
+
+static void do_exit_switch(int me, void *v)
+{
+    const int t = co[me].parent;
+    co[me].status = ST_FINISHED; co[me].exitv = v; co[me].depth = 0;
+    co[t].caller = me;
+    expect_target = t; expect_msg = v; expect_entry = false; cur = t;
+}
+
+static void interp(int me, int depth);
+
+static void recurse(int me, int depth, int more)
+{
+    volatile uint64_t loc[4];
+    for (int k = 0; k < 4; k++) loc[k] = mix64((uint64_t)me * 1000 + (uint64_t)depth, (uint64_t)k + 77);
+    if (more > 0) recurse(me, depth + 1, more - 1); else interp(me, depth + 1);
+    for (int k = 0; k < 4; k++)
+        if (loc[k] != mix64((uint64_t)me * 1000 + (uint64_t)depth, (uint64_t)k + 77))
+            viol("C03", "stack-contents", "coroutine %d depth %d: stack local changed across switches", me, depth);
+}
+
+static void interp(int me, int depth)
+{
+    volatile uint64_t sent[6];
+    const uint64_t sbase = mix64((uint64_t)me, (uint64_t)depth * 7919u + 13u);
+    for (int k = 0; k < 6; k++) sent[k] = sbase + (uint64_t)k;
+    co[me].depth = depth;
+    while (!stop_all && !co[me].returning && g_nviol < 4) {
+        if (pc >= P->n) {
+            /* plan exhausted: everybody hands control back to main, which ends the run */
+            if (me == MAINI) break;
+            co[MAINI].caller = me; expect_target = MAINI; expect_msg = (void *)0xE0D; expect_entry = false; cur = MAINI;
+            const uint64_t pat = 0xC0DE000000000000ull | ((uint64_t)me << 32) | 0xffff00u;
+            void *got = switch_shim(w_transfer, cpof(MAINI), (void *)0xE0D, pat);
+            after_switch_in(me, got, pat);     /* only if somebody resumes us later: cannot happen */
+            continue;
+        }
+        const int at = pc;
+        const pline *l = &P->l[pc++];
+        if (pis(l, "INIT")) continue;
+        g_stats.events++;
+        const uint64_t pat = 0xC0DE000000000000ull | ((uint64_t)me << 32) | ((uint64_t)at << 8);
+        void *msg = (void *)(uintptr_t)(0x5000 + at);
+        const int c = (int)((uint64_t)pa(l, 0) % (uint64_t)nco);
+        void *got = NULL; bool switched = false;
+        if (pis(l, "START")) {
+            if (co[c].status == ST_RUNNING || c == me) continue;
+            if (co[c].status == ST_FINISHED) PROBE("coro.restart");
+#ifdef VERIF_ASAN
+            if (co[c].used) __asan_unpoison_memory_region(co[c].cp->stack, co[c].stacksz);
+#endif
+            co[c].used = true;
+            co[c].parent = co[c].caller = me; co[c].status = ST_RUNNING; co[c].exitv = NULL; co[c].returning = false;
+            expect_target = c; expect_entry = true; expect_msg = NULL; cur = c;
+            TR2("start", me, c);
+            got = switch_shim(w_start, co[c].cp, msg, pat); switched = true;
+        } else if (pis(l, "RESUME") || pis(l, "TRANSFER")) {
+            int t = c;
+            if (pis(l, "TRANSFER") && pa(l, 0) < 0) t = MAINI;      /* transfer may also target main */
+            if (t == me || co[t].status != ST_RUNNING) continue;
+            co[t].caller = me; expect_target = t; expect_msg = msg; expect_entry = false; cur = t;
+            TR3(l->op, me, t, at);
+            got = switch_shim(pis(l, "RESUME") ? w_resume : w_transfer, cpof(t), msg, pat); switched = true;
+        } else if (pis(l, "YIELD")) {
+            if (me == MAINI) continue;
+            const int t = co[me].caller;
+            if (t < 0 || co[t].status != ST_RUNNING) continue;
+            co[t].caller = me; expect_target = t; expect_msg = msg; expect_entry = false; cur = t;
+            TR3("yield", me, t, at);
+            got = switch_shim(w_yield, msg, NULL, pat); switched = true;
+        } else if (pis(l, "RETURN") || pis(l, "EXIT")) {
+            if (me == MAINI) continue;
+            const int t = co[me].parent;
+            if (t < 0 || co[t].status != ST_RUNNING) continue;
+            TR3(l->op, me, t, at);
+            if (pis(l, "RETURN")) { co[me].returning = true; co[me].retv = msg; PROBE("coro.return"); break; }
+            PROBE("coro.exit");
+            if (depth > 0) PROBE("coro.exit_at_depth");
+            do_exit_switch(me, msg);
+            cmi_coroutine_exit(msg);
+            viol("C03", "exit-returned", "cmi_coroutine_exit returned");
+        } else if (pis(l, "STOP")) {
+            if (c == me || co[c].status != ST_RUNNING) continue;
+            TR2("stop", me, c);
+            PROBE("coro.stop_other");
+            co[c].status = ST_FINISHED; co[c].exitv = msg; co[c].depth = 0;
+            cmi_coroutine_stop(co[c].cp, msg);
+            check_model("stop");
+        } else if (pis(l, "RECURSE")) {
+            int d = (int)((uint64_t)pa(l, 0) % 6);
+            if (depth + d + 1 >= MAXDEPTH) continue;
+            PROBE("coro.recurse");
+            recurse(me, depth, d);
+            co[me].depth = depth;
+        } else if (pis(l, "POP")) {
+            if (depth > 0) break;
+        } else if (pis(l, "SETCSR")) {
+            const uint32_t m = (uint32_t)pa(l, 0);
+            uint32_t v = 0x1d00u;                       /* DM, OM, UM, PM stay masked */
+            v |= (m & 3u) << 13;                        /* rounding mode */
+            if (m & 4u) v |= 0x8000u;                   /* FTZ */
+            if (m & 8u) v |= 0x0040u;                   /* DAZ */
+            if (m & 16u) v |= 0x0080u;                  /* IM masked */
+            if (m & 32u) v |= 0x0200u;                  /* ZM masked */
+            _mm_setcsr(v);
+            co[me].csr = v;
+            PROBE("coro.setcsr");
+        }
+        if (switched) {
+            after_switch_in(me, got, pat);
+            for (int k = 0; k < 6; k++)
+                if (sent[k] != sbase + (uint64_t)k)
+                    viol("C03", "stack-contents", "coroutine %d depth %d: local sentinel changed across a switch", me, depth);
+            if (depth > 0) PROBE("coro.switch_at_depth");
+        }
+    }
+    for (int k = 0; k < 6; k++)
+        if (sent[k] != sbase + (uint64_t)k)
+            viol("C03", "stack-contents", "coroutine %d depth %d: local sentinel changed", me, depth);
+}
+
+/* reached through coro_entry_stub, which recorded rsp at function entry */
+void *coro_body_c(struct cmi_coroutine *cp, void *ctx)
+{
+    const int me = (int)((mco *)ctx - co);
+    nswitch++;
+    if (me < 0 || me >= nco || cp != co[me].cp)
+        viol("C03", "start-args", "started coroutine got cp=%p ctx=%p", (void *)cp, ctx);
+    if ((entry_rsp & 15u) != 8u)
+        viol("C03", "stack-alignment", "coroutine %d: rsp %% 16 == %u at function entry (must be 8)", me, (unsigned)(entry_rsp & 15u));
+    if (!(expect_target == me && expect_entry))
+        { viol("C03", "wrong-target", "coroutine %d started, model predicted target %d entry=%d", me, expect_target, expect_entry); stop_all = true; }
+    if (cmi_coroutine_current() != cp) viol("C03", "current", "coroutine %d started but is not current", me);
+    if (shim_bad) shim_bad = 0;
+    co[me].csr = _mm_getcsr() & ~0x3fu;          /* a fresh coroutine gets the library's initial word */
+    cur = me;
+    check_model("start");
+    TR1("entry", me);
+    interp(me, 0);
+    if (co[me].returning) {
+        /* returning from the coroutine function: the value becomes the exit value, control goes to the starter */
+        void *v = co[me].retv;
+        co[me].returning = false;
+        do_exit_switch(me, v);
+        return v;
+    }
+    /* stop_all: get out of the way */
+    co[MAINI].caller = me; expect_target = MAINI; expect_msg = (void *)0xE0D; expect_entry = false; cur = MAINI;
+    cmi_coroutine_transfer(cmi_coroutine_main(), (void *)0xE0D);
+    return NULL;
+}
+
+void coro_exit_c(void *retval)
+{
+    if ((exit_rsp & 15u) != 8u)
+        viol("C03", "stack-alignment", "rsp %% 16 == %u at exit-function entry (must be 8)", (unsigned)(exit_rsp & 15u));
+    cmi_coroutine_exit(retval);
+}
+
+static void co_run(const plan *p)
+{
+    cmb_logger_flags_off(CMB_LOGGER_INFO | CMB_LOGGER_WARNING);
+    P = p; pc = 0; stop_all = false; nswitch = 0; shim_bad = 0;
+    nco = 3; int szsel = 0;
+    for (int i = 0; i < p->n; i++) if (pis(&p->l[i], "INIT")) { nco = 2 + (int)((uint64_t)pa(&p->l[i], 0) % 7); szsel = (int)((uint64_t)pa(&p->l[i], 1) % 4); break; }
+    MAINI = nco;
+    memset(co, 0, sizeof co);
+    static const size_t sizes[] = { 64 * 1024, 64 * 1024 + 8, 49152 + 24, 98304 + 4 };
+    const uint32_t csr0 = _mm_getcsr();
+    for (int i = 0; i < nco; i++) {
+        co[i].cp = cmi_coroutine_create();
+        co[i].stacksz = sizes[szsel] + (size_t)(i & 1) * 8u;
+        cmi_coroutine_initialize(co[i].cp, (cmi_coroutine_func *)coro_entry_stub, &co[i], coro_exit_stub, co[i].stacksz);
+        co[i].status = ST_CREATED; co[i].caller = co[i].parent = -1;
+    }
+    co[MAINI].status = ST_RUNNING; co[MAINI].caller = co[MAINI].parent = -1; co[MAINI].csr = _mm_getcsr() & ~0x3fu;
+    cur = MAINI; expect_target = MAINI;
+    interp(MAINI, 0);
+    if (cmi_coroutine_current() != cmi_coroutine_main()) die("coro engine ended outside main");
+    _mm_setcsr(csr0);
+    g_stats.faults = nswitch;
+    g_stats.nontrivial = nswitch >= 4;
+    for (int i = 0; i < nco; i++) { cmi_coroutine_terminate(co[i].cp); cmi_coroutine_destroy(co[i].cp); }
+}
+
+static void co_gen(plan *p, uint64_t seed, const char *cfg)
+{
+    (void)cfg;
+    vrng r; vrng_seed(&r, seed);
+    const int n = 2 + (int)vrng_below(&r, 7);
+    plan_add(p, "INIT", 2, (int64_t)(n - 2), (int64_t)vrng_below(&r, 4));
+    const int steps = 8 + (int)vrng_below(&r, vrng_chance(&r, 1, 5) ? 190 : 50);
+    for (int i = 0; i < steps; i++) {
+        const unsigned k = (unsigned)vrng_below(&r, 100);
+        const int64_t c = (int64_t)vrng_below(&r, (uint64_t)n);
+        if (k < 18) plan_add(p, "START", 1, c);
+        else if (k < 36) plan_add(p, "RESUME", 1, c);
+        else if (k < 48) plan_add(p, "TRANSFER", 1, vrng_chance(&r, 1, 4) ? (int64_t)-1 : c);
+        else if (k < 68) plan_add(p, "YIELD", 0);
+        else if (k < 73) plan_add(p, "RETURN", 0);
+        else if (k < 78) plan_add(p, "EXIT", 0);
+        else if (k < 82) plan_add(p, "STOP", 1, c);
+        else if (k < 90) plan_add(p, "RECURSE", 1, (int64_t)vrng_below(&r, 6));
+        else if (k < 93) plan_add(p, "POP", 0);
+        else plan_add(p, "SETCSR", 1, (int64_t)vrng_below(&r, 64));
+    }
+}
+
+const engine eng_coro = {
+    .name = "coro", .props = "C03", .gen = co_gen, .run = co_run,
+    .rule = "runs with at least 4 context switches",
+};
